@@ -26,6 +26,7 @@ EXPLANATION = (
     "of the three source-hash expressions (T12), parameter-flow into the cache-key hasher (T4), argument provenance of the module "
     "info recorded for an emitted module (T4)."
 )
+EXPLANATION += " " + 'Plus: a cache item is written for every module and diagnostic on every path, cache hits are published and replayed completely (emitted modules and cached diagnostics), polarity of the hash comparison.'
 NOT_DECIDED = "transparency over histories of edits (needs runs); equality of emitted text across runs"
 ASSUMPTIONS = ["fast_insecure_hash is a function of its input bytes"]
 
